@@ -79,6 +79,12 @@ impl TypeErr {
         }
     }
 
+    /// Causes attached to this error, for external monitors.
+    #[cfg(feature = "verif")]
+    pub fn verif_causes(&self) -> &[Cause] {
+        &self.causes
+    }
+
     pub fn append_msg(&self, msg: &str) -> Self {
         TypeErr {
             msg: format!("{} {msg}", self.msg),
